@@ -21,8 +21,8 @@ from numpy import ndarray, asarray, any as _any
 from mystic._symbolic import solve
 from mystic.tools import list_or_tuple_or_ndarray, flatten
 import re
-# a variable name that is not part of a longer name or a number (e.g. 1e5)
-_name = r'(?<![A-Za-z0-9_])(?<![0-9]\.)%s(?![A-Za-z0-9_])'
+# a name that is not part of a longer name, an attribute, or a number (1.e5)
+_name = r'(?<![\w.])%s(?!\w)'
 NL = '\n'
 
 
@@ -882,10 +882,11 @@ Examples:
     >>> print(replace_variables(equation,vars))
     $4 = ma$1($2,$1) + $1
     ''' #FIXME: don't parse if __name__ in builtins, globals, or locals?
-    for i in indices: # match whole names only (not 'x' in 'max')
-        name = _name % re.escape(variables[i])
-        constraints = re.sub(name, lambda m: marker + str(i), constraints)
-    return constraints.replace(marker, markers)
+    if not indices: return constraints
+    # match whole names only (not 'x' in 'max'), all in a single pass
+    names = '(?:%s)' % '|'.join(re.escape(variables[i]) for i in indices)
+    index = dict((variables[i], i) for i in reversed(indices))
+    return re.sub(_name % names, lambda m: markers + str(index[m.group(0)]), constraints)
 
 
 def get_variables(constraints, variables='x'):
